@@ -331,8 +331,17 @@ class LazyEvaluatedKernelTensor(LinearOperator):
             **self.params,
         )
 
+    def _permute_batch(self, *dims):
+        if len(self.kernel.batch_shape):
+            # The batch dimensions of the kernel's own parameters would not follow those of x1 / x2: evaluate first
+            return self.evaluate_kernel()._permute_batch(*dims)
+        return super()._permute_batch(*dims)
+
     @recall_grad_state
     def _unsqueeze_batch(self, dim):
+        if len(self.kernel.batch_shape):
+            # (see _permute_batch)
+            return self.evaluate_kernel()._unsqueeze_batch(dim)
         x1 = self.x1.unsqueeze(dim)
         x2 = self.x2.unsqueeze(dim)
         return self.__class__(
